@@ -127,9 +127,21 @@ func (p *processor) Execute(db *DB) *DB {
 		}
 	}
 
+	// a panic in a hook, a callback or a scanner that the caller recovers must
+	// not leave the transaction this operation started open
+	panicked := true
+	defer func() {
+		if panicked {
+			if _, ok := db.InstanceGet("gorm:started_transaction"); ok {
+				db.Rollback()
+			}
+		}
+	}()
+
 	for _, f := range p.fns {
 		f(db)
 	}
+	panicked = false
 
 	if stmt.SQL.Len() > 0 {
 		db.Logger.Trace(stmt.Context, curTime, func() (string, int64) {
